@@ -1,6 +1,7 @@
 """C09 - Sp(2n,F2) indexing is a bijection onto the symplectic group."""
 import itertools
 import random
+import os
 import numpy as np
 import numqi
 import numqi.group.spf2 as sp
@@ -220,9 +221,10 @@ def run(chk):
             c.add(f'from_int_tuple(t) is a symplectic 0/1 uint8 matrix and to_int_tuple inverts it [n={n}{tagf}] path {pi}', pre,
                   ir.band(ir.band(symp, binary), ir.band(rt, ir.bconst(M.dtype == U8))), key='from_int_tuple not symplectic / not injective', replay=rp)
         c.add(f'reach tuple [n={n}{tagf}]', inr, ir.TRUE, kind='reach')
-    for n in range(1, min(nmax, 2) + 1):
+    focus = os.environ.get('VERIF_C09_FOCUS', '')      # seed evaluation only: 'matrix' runs the matrix -> tuple -> matrix block alone (never set by the registered commands)
+    for n in range(1, min(nmax, 2) + 1) if focus != 'matrix' else ():
         tuple_block(chk, n)
-    if nmax < 3:
+    if nmax < 3 and focus != 'matrix':
         # quick tier: two slices of the n=3 domain - the base-63 digit at its extreme values 0 and 62, the other five digits symbolic (boundary labels are where
         # case analyses slip); the full n=3 domain is the thorough tier
         base3 = sp.get_number(3, 'base')
